@@ -72,6 +72,47 @@ func catalogue() []mistake {
 			return nil
 		}},
 		{"func: origin placeholder is not a function", func(b *mocker.Builder) error { b.Func(hw.G).Origin(42).Apply(fA); return nil }},
+		// the same callback mistakes combined with a well-formed origin placeholder
+		{"func with origin: callback with one parameter too many", func(b *mocker.Builder) error {
+			o := hw.OG
+			b.Func(hw.G).Origin(&o).Apply(func(a, x int) int { return a })
+			return nil
+		}},
+		{"func with origin: callback with no parameter", func(b *mocker.Builder) error {
+			o := hw.OG
+			b.Func(hw.G).Origin(&o).Apply(func() int { return 1 })
+			return nil
+		}},
+		{"func with origin: callback with one result too many", func(b *mocker.Builder) error {
+			o := hw.OG
+			b.Func(hw.G).Origin(&o).Apply(func(a int) (int, int) { return a, a })
+			return nil
+		}},
+		{"func with origin: callback with no result", func(b *mocker.Builder) error {
+			o := hw.OG
+			b.Func(hw.G).Origin(&o).Apply(func(a int) {})
+			return nil
+		}},
+		{"func with origin: callback parameter of different size", func(b *mocker.Builder) error {
+			o := hw.OG
+			b.Func(hw.G).Origin(&o).Apply(func(a int8) int { return 1 })
+			return nil
+		}},
+		{"func with origin: callback result of different size", func(b *mocker.Builder) error {
+			o := hw.OG
+			b.Func(hw.G).Origin(&o).Apply(func(a int) string { return "" })
+			return nil
+		}},
+		{"func with origin: callback is not a function", func(b *mocker.Builder) error {
+			o := hw.OG
+			b.Func(hw.G).Origin(&o).Apply(42)
+			return nil
+		}},
+		{"method with origin: callback without the receiver parameter", func(b *mocker.Builder) error {
+			o := func(s *hw.S, a int) int { return 0 }
+			b.Struct(&hw.S{}).Method("Q").Origin(&o).Apply(fA)
+			return nil
+		}},
 		{"method: unknown method name", func(b *mocker.Builder) error {
 			b.Struct(&hw.S{}).Method("Nope").Apply(func(s *hw.S, a int) int { return a })
 			return nil
